@@ -302,6 +302,17 @@ def o_c04(w, args):
                 list(map(tok, bs)), None if r is None else tok(r), 'exists' if want else 'does not exist')
         if r is not None and fam[tok(r)] != frozenset(map(tok, bs)):
             return '[simplexWithBasis/wrong] simplexWithBasis(%s) returned %s with basis %s' % (list(map(tok, bs)), tok(r), sorted(fam[tok(r)]))
+    # a basis naming a point twice: whatever reading of "the simplex with this basis" one takes, a simplex that
+    # is returned has exactly the named points, and containsSimplexWithBasis agrees with simplexWithBasis
+    for _ in range(4):
+        if not pts: break
+        p_ = rnd.choice(pts); q_ = rnd.choice(pts)
+        bs = rnd.choice([[p_, p_], [p_, p_, q_], [p_, q_, p_], [q_, p_, p_, q_]])
+        r = c.simplexWithBasis(bs)
+        if r is not None and fam[tok(r)] != frozenset(map(tok, bs)):
+            return '[simplexWithBasis/wrong] simplexWithBasis(%s) returned %s with basis %s' % (list(map(tok, bs)), tok(r), sorted(fam[tok(r)]))
+        if bool(c.containsSimplexWithBasis(bs)) != (r is not None):
+            return '[containsSimplexWithBasis/wrong] containsSimplexWithBasis(%s) disagrees with simplexWithBasis = %s' % (list(map(tok, bs)), None if r is None else tok(r))
     facesets = {frozenset(map(tok, c.faces(s))): tok(s) for s in ss if order[tok(s)] >= 1}
     for k in range(1, c.maxOrder() + 2):
         lower = c.simplicesOfOrder(k - 1)
